@@ -13,5 +13,8 @@ func splitContainsPath(p string) (dirNodePath []string, nodeName string, err err
 	}
 	dirNodePath = nodePath[:len(nodePath)-1]
 	nodeName = nodePath[len(nodePath)-1]
+	if nodeName == "" || nodeName == currentDir {
+		return nil, "", goaterr.Errorf("Path must contains nodename")
+	}
 	return dirNodePath, nodeName, nil
 }
